@@ -133,6 +133,151 @@ def run(prog):
             errs.append("an iteration keeps node[j] but advances j by %d" % inc)
     if not results:
         errs.append("no path through the inner loop found")
+    out += trimming(prog)
     out.append(inst("CM", "%s:CM3:cursor" % fn.npath, VIOLATION if errs else OK, fn, None,
                     "; ".join(errs) if errs else "per iteration: remove-and-stay or keep-and-advance %s" % sorted(results)))
+    return out
+
+
+
+def trimming(prog):
+    """CM4  the trimming base cases of canonicalize return an SDD equivalent to the element list they replace.
+    For each `Some(x)` the function returns, the dominating tests (list length, is_true / is_false of primes and subs)
+    are taken as constraints and x is compared with ⋁ pᵢ∧sᵢ for every Boolean valuation of the subs and every choice
+    of the one prime that holds (primes partition ⊤) — a finite evaluation of the guard/return pairs.  The empty list
+    is not judged: it cannot arise from a partition."""
+    import itertools
+    fns = [g for g in prog.lib_fns if g.name == "canonicalize_base_case" and "CompressionSddBuilder" in g.npath]
+    if len(fns) != 1:
+        raise CheckerError("CM4: canonicalize_base_case not found")
+    fn = fns[0]
+    te = fn.terms
+    out = []
+    k = 0
+
+    def elem(t):
+        """prime(index(arg2,i)) / sub(index(arg2,i)) -> ('p'|'s', i)"""
+        t = strip(t)
+        if t[0] == "call" and t[1].name in ("prime", "sub") and t[2]:
+            ix = strip(t[2][0])
+            if (ix[0] == "call" and ix[1].name == "index" and strip(ix[2][0]) == ("param", 2)) or (ix[0] == "index" and strip(ix[1]) == ("param", 2)):
+                i = strip(ix[2][1] if ix[0] == "call" else ix[2])
+                if i[0] == "const":
+                    return ("p" if t[1].name == "prime" else "s", int(i[2]))
+        return None
+    for a in te.aggs:
+        t = a[1]
+        if not (isinstance(t, tuple) and t[0] == "agg" and t[3] == "Some" and t[4]):
+            continue
+        x = strip(t[4][0])
+        facts = [(strip(c), val != "0") for c, val, _, _ in te.facts_at(a[0])]
+        n = None
+        for c, holds in facts:
+            if mir.is_call(c, "is_empty") and holds:
+                n = 0
+            if c[0] == "bin" and c[1] == "Eq" and holds and mir.is_call(strip(c[2]), "len") and strip(c[3])[0] == "const":
+                n = int(strip(c[3])[2])
+        k += 1
+        key = "%s:CM4:trim#%d" % (fn.npath, k)
+        if n is None:
+            out.append(inst("CM", key, UNDECIDED, fn, None, "list length not fixed on the path returning %s" % show(x)[:40]))
+            continue
+        if n == 0:
+            out.append(inst("CM", key, OK, fn, None, "empty list: not judged (cannot arise from a partition of ⊤)"))
+            continue
+        cons = []   # (kind, i, value) for is_true / is_false facts that hold
+        for c, holds in facts:
+            if holds and c[0] == "call" and c[1].name in ("is_true", "is_false") and c[2]:
+                e = elem(c[2][-1])
+                if e:
+                    cons.append((e[0], e[1], 1 if c[1].name == "is_true" else 0))
+        bad = None
+        cases = 0
+        for istar in range(n):
+            for subs in itertools.product((0, 1), repeat=n):
+                env_p = [int(i == istar) for i in range(n)]
+                if any((env_p[i] if kind == "p" else subs[i]) != v for kind, i, v in cons if i < n):
+                    continue
+                # a prime known to be ⊤ forces it to be the one that holds in *every* valuation
+                cases += 1
+                want = subs[istar]
+                if mir.is_call(x, "true_ptr"):
+                    got = 1
+                elif mir.is_call(x, "false_ptr"):
+                    got = 0
+                else:
+                    e = elem(x)
+                    if e is None or e[1] >= n:
+                        bad = "returns %s, not an element of the list" % show(x)[:40]
+                        break
+                    got = env_p[e[1]] if e[0] == "p" else subs[e[1]]
+                if got != want:
+                    bad = ("for a %d-element list under the tests %s it returns %s, which differs from ⋁ pᵢ∧sᵢ when prime %d holds "
+                           "and the subs are %s" % (n, [("%s%d=%s" % (kd, i, "⊤" if v else "⊥")) for kd, i, v in cons] or "none",
+                                                   show(x)[:30], istar, subs))
+                    break
+            if bad:
+                break
+        out.append(inst("CM", key, VIOLATION if bad else OK, fn, None,
+                        bad if bad else "Some(%s) ≡ the %d-element list under its guards (%d valuations)" % (show(x)[:30], n, cases)))
+    if k < 4:
+        raise CheckerError("CM4: only %d trimming returns recognised" % k)
+    # completeness: the lists that *have* a smaller equivalent are trimmed (walk the CFG with the tests evaluated)
+    none_bbs = {a[0] for a in te.aggs if isinstance(a[1], tuple) and a[1][0] == "agg" and a[1][3] == "None"}
+    some_bbs = {a[0] for a in te.aggs if isinstance(a[1], tuple) and a[1][0] == "agg" and a[1][3] == "Some"}
+    cfg = fn.cfg
+
+    def val(c, n, P, S):
+        c = strip(c)
+        if mir.is_call(c, "is_empty"):
+            return int(n == 0)
+        if c[0] == "bin" and c[1] in ("Eq", "Ne", "Lt", "Le", "Gt", "Ge") and mir.is_call(strip(c[2]), "len") and strip(c[3])[0] == "const":
+            kk = int(strip(c[3])[2])
+            return int({"Eq": n == kk, "Ne": n != kk, "Lt": n < kk, "Le": n <= kk, "Gt": n > kk, "Ge": n >= kk}[c[1]])
+        if c[0] == "call" and c[1].name in ("is_true", "is_false") and c[2]:
+            e = elem(c[2][-1])
+            if e and e[1] < n:
+                v = (P if e[0] == "p" else S)[e[1]]
+                return int(v == ("T" if c[1].name == "is_true" else "F"))
+        return None
+
+    def outcome(n, P, S):
+        res = set()
+
+        def go(b, seen):
+            if b in some_bbs:
+                res.add("some")
+                return
+            if b in none_bbs:
+                res.add("none")
+                return
+            t = fn.blocks[b]["term"]
+            if t["k"] == "return":
+                res.add("?")
+                return
+            if t["k"] == "switch":
+                v = val(te.switch_term[b][0], n, P, S)
+                if v is None:
+                    nx = [x for _, x in t["targets"]] + [t["otherwise"]]
+                else:
+                    tg = [x for vv, x in t["targets"] if int(vv) == v]
+                    nx = [tg[0]] if tg else [t["otherwise"]]
+            else:
+                nx = list(cfg.succ[b])
+            for s_ in nx:
+                if s_ not in seen and fn.blocks[s_]["term"]["k"] != "unreachable":
+                    go(s_, seen | {s_})
+        go(0, {0})
+        return res
+    errs = []
+    for s0 in ("T", "F", "x"):
+        if "none" in outcome(1, ["T"], [s0]):
+            errs.append("a single-element list (its prime is ⊤ by the partition property) with sub %s is not trimmed to its sub"
+                        % {"T": "⊤", "F": "⊥", "x": "s"}[s0])
+            break
+    for S in (["T", "F"], ["F", "T"]):
+        if "none" in outcome(2, ["x", "x"], S):
+            errs.append("a two-element list with subs (%s, %s) is not trimmed to the prime of the ⊤ sub" % tuple("⊤" if v == "T" else "⊥" for v in S))
+    out.append(inst("CM", "%s:CM4:trim-complete" % fn.npath, VIOLATION if errs else OK, fn, None,
+                    "; ".join(errs) if errs else "single elements and (⊤,⊥)/(⊥,⊤) pairs are always trimmed"))
     return out
